@@ -49,13 +49,21 @@ ASCII_NAMES = (
     "a", "A", "b", "aB", "Ab", "ab", "sub0", "sub1", "Sub0", "a.b", "a+b", "a[b]", "(a)", "^a", "a$", "a|b",
     "a{2}", "a\\b", "a b", " a", "", ".", "..", "**", "a*", "a?", "x.y", "xy", "x", "a\nb", "aab", "aXb", "0", "None",
 )
-NONASCII_NAMES = ("ä", "Ä", "ß", "é", "日本")
+# letters whose case mapping is one-to-one in both str.upper() (used by get) and re.IGNORECASE (used by glob)
+# may appear together with ignorecase resolvers; the others (sharp s, dotted capital I, ...) only without
+SIMPLE_CASE_NAMES = ("ä", "Ä", "éa", "Éa", "ñ", "Ñb")
+NONASCII_NAMES = ("ß", "İx", "日本", "ǅ")
+
+
+def case_safe(name):
+    return all(ord(ch) < 128 or ch in "äÄéÉñÑ" for ch in name)
 
 
 def names_for(sep, ascii_only, rng, k):
     pool = [n for n in ASCII_NAMES if sep not in n]
     other = [s for s in SEP_CLASSES if s != sep and sep not in s]
     pool += ["a" + o + "b" for o in other]
+    pool += list(SIMPLE_CASE_NAMES)
     if not ascii_only:
         pool += list(NONASCII_NAMES)
     small = rng.sample(pool, min(len(pool), rng.randint(3, 9)))
@@ -353,7 +361,7 @@ def run(cfg, ops=None, rng=None):
                         op = {"op": "parent", "n": i, "p": rng.choice(cand)}
                 elif r < cfg["mut"] + 0.04:
                     op = {"op": "maxcache", "v": rng.choice((1, 2, 3, 5, 20))}
-                elif r < cfg["mut"] + 0.07 and not any(len(nm) != len(nm.encode()) for nm in names):
+                elif r < cfg["mut"] + 0.07 and all(case_safe(nm) for nm in names):
                     # the flags are public attributes of a resolver: change them on a live instance
                     op = {"op": "setflag", "r": rng.randrange(len(resolvers)), "ic": rng.random() < 0.5, "rx": rng.random() < 0.5}
                 else:
@@ -385,7 +393,7 @@ def run(cfg, ops=None, rng=None):
                         raise Violation("GUARD", "guard", step, "guard", "forest inconsistent after %r" % (op,))
                 continue
             if kind == "setflag":
-                if op["r"] < len(resolvers) and not any(len(nm) != len(nm.encode()) for nm in names):
+                if op["r"] < len(resolvers) and all(case_safe(nm) for nm in names):
                     resolvers[op["r"]].ignorecase = op["ic"]
                     resolvers[op["r"]].relax = op["rx"]
                     flags[op["r"]] = [op["ic"], op["rx"]]
